@@ -57,6 +57,7 @@ class Context(object):
         self.events = []
         self.counters = {}
         self.cover = set()
+        self.universal = []
 
     def fresh(self, prefix, sort='R'):
         k = self.counters.get(prefix, 0)
